@@ -10,3 +10,5 @@ def check(rep, tier):
     rep.run(rules_scalar.run, rep, tier, adjoint=True)
     from contracts import discipline
     rep.run(discipline.run_trace, rep, tier)
+    from contracts import rules_numeric
+    rep.run(rules_numeric.run, rep, tier, clauses=('N-hess',))
